@@ -14,7 +14,7 @@ import (
 	carv2 "github.com/ipld/go-car/v2"
 	"github.com/ipld/go-car/v2/index"
 	"github.com/multiformats/go-multicodec"
-	"github.com/multiformats/go-multihash"
+	mh "github.com/multiformats/go-multihash"
 )
 
 type idxOpts struct {
@@ -103,8 +103,8 @@ func eachIndex(idx index.Index) string {
 		return "na"
 	}
 	var es []string
-	err := it.ForEach(func(m multihash.Multihash, o uint64) error {
-		d, err := multihash.Decode(m)
+	err := it.ForEach(func(m mh.Multihash, o uint64) error {
+		d, err := mh.Decode(m)
 		if err != nil {
 			return err
 		}
@@ -149,12 +149,12 @@ func (g *Gen) queries(bs []Blk) []cid.Cid {
 			add(cid.NewCidV1(0x0129, b.C.Hash())) // same multihash, other codec
 		}
 		if g.pick(4) == 0 { // same digest, other hash code
-			d, _ := multihash.Decode(b.C.Hash())
-			code := uint64(multihash.SHA3_256)
+			d, _ := mh.Decode(b.C.Hash())
+			code := uint64(mh.SHA3_256)
 			if d.Code == code {
-				code = multihash.SHA2_256
+				code = mh.SHA2_256
 			}
-			if m, err := multihash.Encode(d.Digest, code); err == nil {
+			if m, err := mh.Encode(d.Digest, code); err == nil {
 				add(cid.NewCidV1(cid.Raw, m))
 			}
 		}
@@ -165,7 +165,56 @@ func (g *Gen) queries(bs []Blk) []cid.Cid {
 	return qs
 }
 
+// longPayloadCases: one payload with more sections than any batch size, buffer or bucket threshold a
+// generator might use (2048, 4096, 8192): every section must still be found at its own offset.
+func longPayloadCases(g *Gen, o *Out, thorough bool) {
+	counts := []int{2100 + g.pick(2500)}
+	if thorough {
+		counts = []int{2049, 4097, 8200 + g.pick(300)}
+	}
+	for _, nb := range counts {
+		var bs []Blk
+		for i := 0; i < nb; i++ {
+			d := g.bytes(1 + g.pick(3))
+			h, _ := mh.Sum(d, mh.SHA2_256, -1)
+			if i%97 == 0 {
+				h, _ = mh.Sum(d, mh.SHA2_512, -1) // a second bucket (other width)
+			}
+			bs = append(bs, Blk{cid.NewCidV1(cid.Raw, h), d})
+		}
+		o.HashBlocks(bs)
+		r := []cid.Cid{bs[0].C}
+		v1 := g.pick(2) == 0
+		arch := writeAll(r, bs, v1)
+		ver := 2
+		if v1 {
+			ver = 1
+		}
+		io_ := idxOpts{mcs: 2048, mh: 32 << 20}
+		qs := []cid.Cid{bs[0].C, bs[1].C, bs[nb/2].C, bs[2047].C, bs[2048].C, bs[nb-1].C, bs[g.pick(nb)].C, g.Block().C}
+		desc := fmt.Sprintf("%s roots=%s blocks=%s ver=%d dp=0 pad=0 arch=%s q=%s", io_, rootsArg(r), blocksStr(bs), ver,
+			hex.EncodeToString(arch), cidsStr(qs))
+		for _, kind := range []string{"seek", "plain"} {
+			for _, codec := range []string{"sorted", "mh", "ins"} {
+				var rd io.Reader = bytes.NewReader(arch)
+				if kind == "plain" {
+					rd = &plainReader{rd}
+				}
+				idx := newIndex(codec)
+				err := carv2.LoadIndex(idx, rd, io_.opts()...)
+				res := "open=" + classifyIdx(err)
+				if err == nil {
+					res += " get=" + queryIndex(idx, qs) + " each=" + eachIndex(idx)
+				}
+				o.Line(fmt.Sprintf("idx kind=%s codec=%s %s", kind, codec, desc), res)
+				o.Count("idx/long/" + kind + "/" + codec)
+			}
+		}
+	}
+}
+
 func famC03(g *Gen, o *Out, n int, thorough bool) {
+	longPayloadCases(g, o, thorough)
 	for c := 0; c < n; c++ {
 		maxB := 6
 		if thorough {
